@@ -413,6 +413,7 @@ MonStep(m0, step, C) ==
           [] s.k = "bnext" -> [m EXCEPT !.g = Append(@, <<s.a + 200, "N", s.v>>)]     \* BehaviorSubject inputs: own id range
           [] s.k = "bnextby" -> [m EXCEPT !.g = Append(@, <<s.a + 200, "N", MapF(s.b, BLatest(m.g, Len(m.g), s.a))>>)]
           [] s.k = "bterm" -> [m EXCEPT !.g = Append(@, <<s.a + 200, s.t, s.v>>)]
+          [] s.k = "bsunsub" -> [m EXCEPT !.g = Append(@, <<s.a + 200, "X", U>>)]      \* the BehaviorSubject itself was unsubscribed: silence
           [] OTHER -> m
       mid == LogAll(pre, o.log, C)
       H(a) == mid.rh[a]            \* the handle a stimulus names
@@ -431,7 +432,7 @@ MonStep(m0, step, C) ==
                            !.hend = IF GetB(mid.unsubd, H(s.a)) /\ GetI(mid.hend, c) = 0 THEN SetAt(@, c, Len(mid.g) + 1, 0) ELSE @,
                            !.unsubd = IF GetB(mid.unsubd, H(s.a)) THEN SetAt(@, c, TRUE, FALSE) ELSE @,
                            !.lateadd = IF GetB(mid.unsubd, H(s.a)) THEN SetAt(@, c, TRUE, FALSE) ELSE @]
-          [] s.k = "closed" ->
+          [] s.k \in {"closed", "mclosed"} ->      \* mclosed: asked through a handle that remains after unsubscribe()
                IF o.fault # "" THEN mid
                ELSE IF o.ret = B(TRUE) THEN [mid EXCEPT !.closed = SetAt(@, H(s.a), TRUE, FALSE)]
                (* known finding F17: a bare composite answers "closed" while it is empty / all its children are   *)
